@@ -102,15 +102,15 @@ fn merge(acc: &mut Option<Fail>, f: Fail) {
 enum Num {
     I(i64),
     /// above i64::MAX
-    U(u64),
+    U,
     F(f64),
 }
 
 fn classify(n: &serde_json::Number) -> Num {
     if let Some(i) = n.as_i64() {
         Num::I(i)
-    } else if let Some(u) = n.as_u64() {
-        Num::U(u)
+    } else if let Some(_) = n.as_u64() {
+        Num::U
     } else {
         Num::F(n.as_f64().unwrap_or(f64::NAN))
     }
@@ -275,8 +275,9 @@ impl<'a> Coercer<'a> {
         }
         match self.literal(ty, d, None, path, depth + 1) {
             Ok(v) => Ok(v),
+            Err(Fail::Unspecified(r)) => Err(Fail::Unspecified(r)),
             // an invalid default makes the document invalid: no statement
-            Err(f) => unspecified("invalid-default-value", &f.reason().path),
+            Err(Fail::Err(r)) => unspecified("invalid-default-value", &r.path),
         }
     }
 
@@ -286,7 +287,7 @@ impl<'a> Coercer<'a> {
             "Int" => match v {
                 Json::Number(n) => match classify(n) {
                     Num::I(i) if i32::try_from(i).is_ok() => Ok(v.clone()),
-                    Num::I(_) | Num::U(_) => err("Int-out-of-range", path),
+                    Num::I(_) | Num::U => err("Int-out-of-range", path),
                     Num::F(f) if f.fract() == 0.0 && f >= -2147483648.0 && f <= 2147483647.0 => {
                         self.note("int-from-integral-float");
                         unspecified("Int-from-integral-float", path)
@@ -313,7 +314,7 @@ impl<'a> Coercer<'a> {
                             err("Float-int-beyond-precision", path)
                         }
                     }
-                    Num::U(_) => err("Float-int-beyond-precision", path),
+                    Num::U => err("Float-int-beyond-precision", path),
                 },
                 _ => err("Float-wrong-kind", path),
             },
@@ -329,7 +330,7 @@ impl<'a> Coercer<'a> {
                 Json::String(_) => Ok(v.clone()),
                 Json::Number(n) => match classify(n) {
                     Num::I(_) => Ok(v.clone()),
-                    Num::U(_) => {
+                    Num::U => {
                         self.note("id-above-i64");
                         unspecified("ID-integer-above-i64", path)
                     }
@@ -363,7 +364,6 @@ impl<'a> Coercer<'a> {
             return match vars.and_then(|m| m.get(name)) {
                 Some(x) if x.is_null() && ty.is_non_null() => err("null-for-non-null", path),
                 Some(x) => Ok(x.clone()),
-                None if ty.is_non_null() => err("variable-without-value", path),
                 None => err("variable-without-value", path),
             };
         }
